@@ -81,7 +81,10 @@ void convertByteArray2IntArray_fast_1b(size_t intArrayLength, unsigned char* byt
 	if(intArrayLength>0)
 		*intArray = (unsigned char*)malloc(intArrayLength*sizeof(unsigned char));
 	else
+	{
 		*intArray = NULL;
+		return;
+	}
 
 	size_t n = 0, i;
 	int tmp;
@@ -301,7 +304,7 @@ size_t convertIntArray2ByteArray_fast_3b(unsigned char* timeStepType, size_t tim
 			break;
 		}
 	}
-	if(k!=7) //load the last one
+	if(k!=7 && timeStepTypeLength>0) //load the last one
 		(*result)[i] = (unsigned char)tmp;
 
 	return byteLength;
@@ -318,7 +321,10 @@ void convertByteArray2IntArray_fast_3b(size_t stepLength, unsigned char* byteArr
 	if(stepLength>0)
 		*intArray = (unsigned char*)malloc(stepLength*sizeof(unsigned char));
 	else
+	{
 		*intArray = NULL;
+		return;
+	}
 	size_t i = 0, ii = 0, n = 0;
 	unsigned char tmp = byteArray[i];
 	for(n=0;n<stepLength;)
@@ -357,7 +363,8 @@ void convertByteArray2IntArray_fast_3b(size_t stepLength, unsigned char* byteArr
 		case 7:
 			(*intArray)[n++] = (tmp & 0x07);
 			i++;
-			tmp = byteArray[i];
+			if(n<stepLength)
+				tmp = byteArray[i];
 			break;
 		}
 	}
